@@ -47,7 +47,7 @@ def prepare(tier, seed, scratch):
 
 
 def shards(tier, seed):
-    per = 4 if tier == "quick" else 36
+    per = 10 if tier == "quick" else 60
     return [{"seed": seed * 2593 + s * 11 + 19, "n": per, "pure_python": False, "timeout_s": 3300} for s in range(16)]
 
 
